@@ -240,10 +240,16 @@ impl Parser for Markdown {
                         use pulldown_cmark::Tag;
 
                         if matches!(tag, Tag::CodeBlock(..)) {
-                            tokens.push(Token {
-                                span: Span::new_with_len(traversed_chars, text.chars().count()),
-                                kind: TokenKind::Unlintable,
-                            });
+                            // The text of a code block is not always verbatim source (a tab in the
+                            // indentation is expanded to spaces that exist nowhere); its range is.
+                            let code_len = source_str[range.clone()].chars().count();
+
+                            if code_len > 0 {
+                                tokens.push(Token {
+                                    span: Span::new_with_len(traversed_chars, code_len),
+                                    kind: TokenKind::Unlintable,
+                                });
+                            }
                             continue;
                         }
                         if matches!(tag, Tag::Link { .. }) && self.options.ignore_link_title {
